@@ -16,8 +16,15 @@ package c04lib
 // cold comparison sees at once; code that copies is unaffected.
 //
 // Everything else (Put, Delete, bucket creation, commit, backup) is passed through unchanged.
+//
+// Late storage fault: FailWrites(n) makes the next n write transactions fail AFTER their closure has
+// run to completion without error (the moment a commit fails: I/O error, disk full): the injected
+// error is returned from inside the real transaction, so bbolt rolls it back. Every index goroutine
+// has finished by then, so this does not run into the known C07 finding (goroutines of a batch
+// rejected mid-pipeline touch the rolled-back transaction).
 
 import (
+	"errors"
 	"sync"
 	"sync/atomic"
 
@@ -28,7 +35,13 @@ type PoisonStore struct {
 	Inner diskstore.DiskStore
 	// statistics (how much was handed out and poisoned): evidence that the proxy was in the path
 	Txs, Slices, Bytes atomic.Int64
+	failWrites         atomic.Int32
+	Faults             atomic.Int64 // write transactions made to fail
 }
+
+var ErrInjected = errors.New("injected storage fault at commit time")
+
+func (s *PoisonStore) FailWrites(n int) { s.failWrites.Store(int32(n)) }
 
 func NewPoisonStore(inner diskstore.DiskStore) *PoisonStore { return &PoisonStore{Inner: inner} }
 
@@ -76,7 +89,17 @@ func (s *PoisonStore) Read(f func(diskstore.BucketManager) error) error {
 func (s *PoisonStore) Write(f func(diskstore.BucketManager) error) error {
 	t := &poisonTx{st: s}
 	defer t.end() // after the inner Write has returned: committed or rolled back
-	return s.Inner.Write(func(bm diskstore.BucketManager) error { return f(&poisonBM{bm, t}) })
+	return s.Inner.Write(func(bm diskstore.BucketManager) error {
+		if err := f(&poisonBM{bm, t}); err != nil {
+			return err
+		}
+		if s.failWrites.Load() > 0 {
+			s.failWrites.Add(-1)
+			s.Faults.Add(1)
+			return ErrInjected
+		}
+		return nil
+	})
 }
 func (s *PoisonStore) BackupToFile(path string) error { return s.Inner.BackupToFile(path) }
 func (s *PoisonStore) SizeInBytes() (int64, error)    { return s.Inner.SizeInBytes() }
